@@ -12,13 +12,17 @@ JOBS=${SWEEP_JOBS:-3}
 export VERIF_THREADS=${VERIF_THREADS:-5}
 CHECKS=${CHECKS:-C05 C08 C11 C15 C16 C18}
 mkdir -p $ROOT
+# one snapshot of /verif (working tree, as it is now) for the whole sweep, so that edits made
+# while the sweep runs do not leak into it
+SRC=$ROOT/_src_$$
+rm -rf $SRC; mkdir -p $SRC
+(cd /verif && tar -c --exclude=sim/target --exclude=replays --exclude=seeded --exclude=.git .) | tar -x -C $SRC
 one() {
   s=$1
   d=$ROOT/$s
   rm -rf $d; mkdir -p $d/repo $d/verif
   git -C /repo archive HEAD | tar -x -C $d/repo
-  # uncommitted state of /verif is what is being evaluated
-  (cd /verif && tar -c --exclude=sim/target --exclude=replays --exclude=seeded --exclude=.git .) | tar -x -C $d/verif
+  cp -r $SRC/. $d/verif/
   sed -i "s#/repo/#$d/repo/#g" $d/verif/sim/Cargo.toml
   if ! (cd $d/repo && git apply /verif/seeded/$s/patch.diff 2>/dev/null); then
     echo -e "$s\tAPPLY-FAIL"; rm -rf $d; return
@@ -37,6 +41,7 @@ one() {
   rm -rf $d
   echo -e "$line"
 }
-export -f one; export ROOT CHECKS
+export -f one; export ROOT CHECKS SRC
 printf "%s\n" "$@" | xargs -P $JOBS -I{} bash -c 'one {}' >> $OUT
+rm -rf $SRC
 echo DONE >> $OUT
